@@ -67,6 +67,12 @@ class Tape(object):
             r = cls._ANS[n] = [bytes(t) for t in itertools.product(range(256), repeat=n)]
         return r
 
+    @classmethod
+    def answers_first(cls, n, firsts):
+        """answers to an n-byte request whose first byte is in `firsts` (never materialises 256^n strings)"""
+        rest = cls.answers(n - 1) if n > 1 else [b""]
+        return [bytes([b]) + r for b in sorted(firsts) for r in rest]
+
     @staticmethod
     def bits(a):
         return 8 * len(a)
@@ -115,12 +121,13 @@ class BitTape(object):
         return "|".join("%d/%db" % (a[1], a[0]) for a in cont) if cont else "(empty tape)"
 
 
-def expand(run, prefix, ncalls, tapecls=Tape, first=None):
+def expand(run, prefix, ncalls, tapecls=Tape, first=None, max_nodes=300000):
     """Complete enumeration of the continuations of `prefix` by up to `ncalls` further non-empty
     entropy requests.  -> (leaves, opens, executions): leaves maps the continuation (tuple of
     answers) to the outcome of the run that terminated on it, opens lists (in tape order) the
     continuations after which the sampler asked for still more.  `first` optionally restricts
-    the answers to the first request (sharding of very large trees)."""
+    the answers to the first request to those whose first byte is in the set `first` (sharding of very
+    large trees).  More than `max_nodes` executions => TooWide."""
     leaves = {}
     opens = []
     nexec = 0
@@ -135,9 +142,12 @@ def expand(run, prefix, ncalls, tapecls=Tape, first=None):
             if len(cont) >= ncalls:
                 opens.append(cont)
                 continue
-            ans = tapecls.answers(e.n)
             if first is not None and not cont:
-                ans = [a for a in ans if first(a)]
+                ans = tapecls.answers_first(e.n, first)
+            else:
+                ans = tapecls.answers(e.n)
+            if nexec + len(ans) > max_nodes:
+                raise TooWide("more than %d tapes" % max_nodes)
             if len(cont) == ncalls - 1:
                 base = prefix + cont
                 for a in ans:
